@@ -405,6 +405,24 @@ func (c16) Exec(ctx *core.Ctx, cs *core.Case) {
 		if clause != "remove" {
 			return // the postconditions are consequences of the setter steps on the default parser's URLs
 		}
+		// the other entry point: whatever profile.ParseRef returns (also for an empty base) went through the options
+		for _, b := range []string{base, "", "http://u:p@h:81/x#f"} {
+			var ru *url.Url
+			var rerr error
+			if pan := ctx.Call(len(input)+len(b)+64, func() { ru, rerr = prof.ParseRef(b, input) }); pan != nil {
+				ctx.Violate("profile.ParseRef panics", "", pan.String(), fmt.Sprintf("base %q", b))
+				return
+			}
+			if rerr != nil || ru == nil {
+				continue
+			}
+			rs := obs.Take(ru)
+			if (has("removeuserinfo") && (rs.Username != "" || rs.Password != "") && rs.Hostname != "" && rs.Scheme != "file") || (has("removeport") && rs.Port != "" && rs.Hostname != "") ||
+				(has("removefragment") && strings.Contains(rs.Href, "#")) {
+				ctx.Violate("a URL returned by profile.ParseRef did not go through the profile's options", "no credentials / port / fragment", rs.Href, fmt.Sprintf("base %q, options %s", b, strings.Join(cs.Config, ",")))
+				return
+			}
+		}
 		if has("removeuserinfo") && (got.snap.Username != "" || got.snap.Password != "") {
 			ctx.Violate("remove-user-info left credentials", "", got.snap.Username+":"+got.snap.Password, got.snap.Href)
 		}
